@@ -405,8 +405,13 @@ def gen_foreign(r, tag):
         out = b''
         for _ in range(r.randint(1, 2)):
             if r.random() < 0.7:
-                body = b'\x10\x00\x01\x01' + b'\x00' * 12 + sigwork.JPEG[:r.randint(20, 80)]
-                out += wire.sp_len_enc(len(body) + 1) + b'\x01' + body
+                # image subpacket: header length (little endian) 16 as everybody writes it, or another announced length / version / encoding,
+                # in every subpacket length form
+                hl = r.choice([16, 16, 16, 32, 17, 20, 0x110])
+                hdr = hl.to_bytes(2, 'little') + bytes([r.choice([1, 1, 2]), r.choice([1, 1, 2, 100])]) + bytes(max(0, min(hl, 300) - 4))
+                body = hdr + sigwork.JPEG[:r.randint(20, 80)]
+                lf = r.choice(['min', 'min', 5, 2])
+                out += wire.subpacket(1, body, lenform=lf if (lf != 2 or len(body) + 1 >= 192) else 5)
             else:
                 body = rb(r.randint(0, 40))
                 out += wire.sp_len_enc(len(body) + 1) + bytes([r.choice([2, 100, 110])]) + body
